@@ -39,6 +39,7 @@ type netNode struct {
 	recv   []comm.InMsg
 	drain  bool
 	in     <-chan comm.InMsg
+	rec    *recListener
 }
 
 type netEnv struct {
@@ -80,10 +81,52 @@ func newNetEnv(ids []uint16, domains []string) (*netEnv, error) {
 	return e, nil
 }
 
+// recListener records the connections a listener accepts, so that a scenario can reset one of them (TCP RST) from the peer's side.
+type recListener struct {
+	net.Listener
+	mu    sync.Mutex
+	conns []net.Conn
+}
+
+func (r *recListener) Accept() (net.Conn, error) {
+	c, err := r.Listener.Accept()
+	if err == nil {
+		r.mu.Lock()
+		r.conns = append(r.conns, c)
+		r.mu.Unlock()
+	}
+	return c, err
+}
+
+// resetAll closes every accepted connection with linger 0: the other side sees a connection reset at its next write.
+func (r *recListener) resetAll() int {
+	r.mu.Lock()
+	cs := r.conns
+	r.conns = nil
+	r.mu.Unlock()
+	n := 0
+	for _, c := range cs {
+		var raw net.Conn = c
+		if tc, ok := c.(*tls.Conn); ok {
+			raw = tc.NetConn()
+		}
+		if tcp, ok := raw.(*net.TCPConn); ok {
+			tcp.SetLinger(0)
+			tcp.Close()
+			n++
+		} else {
+			c.Close()
+		}
+	}
+	return n
+}
+
 // listen starts the service of a node (drain=false: accepted connections are served but InMessages is never read).
 func (e *netEnv) listen(id uint16, drain bool) {
 	n := e.nodes[id]
-	l := comm.Listen("127.0.0.1:0", e.server.Cert, e.server.Key)
+	rl := &recListener{Listener: comm.Listen("127.0.0.1:0", e.server.Cert, e.server.Key)}
+	n.rec = rl
+	var l net.Listener = rl
 	n.addr = l.Addr().String()
 	in, stop := comm.ServiceConnections(l, e.p2id, common.Nolog{})
 	n.in, n.stop, n.drain = in, stop, drain
